@@ -38,3 +38,185 @@ Proof.
   intros r Hin. apply Hr. eapply Permutation_in; [apply Permutation_sym; exact HP|exact Hin].
 Qed.
 Print Assumptions C04_shuffle_order_irrelevant.
+
+(* ---------------------------------------------------------------------- *)
+(* The operational, strategy-parameterised model (C04/Strategy.v) refines  *)
+(* the reference semantics (C04/StrategyProofs.v).                         *)
+(* ---------------------------------------------------------------------- *)
+Require Import BS.C04.Strategy BS.C04.StrategyProofs.
+Local Open Scope nat_scope.   (* the file so far is in Z_scope *)
+
+(* C04 proper, on the operational model: for every well-formed program, the
+   value a run returns does not depend on the execution strategy (chunk size,
+   producer read order, producer-side / machine / consumer-side combining,
+   machine grouping and order, combiner spill size, task buffer flush size): same column types, prefix and
+   orderedness, and shard by shard the same list of rows where the program
+   fixes the order, the same multiset elsewhere. *)
+Theorem C04_strategies_agree : forall (st1 st2 : strategy) (p : list node),
+  wf_prog p = true -> wf_strategy st1 p = true -> wf_strategy st2 p = true ->
+  vtypes (rvalue (run st1 p)) = vtypes (rvalue (run st2 p)) /\
+  vpre (rvalue (run st1 p)) = vpre (rvalue (run st2 p)) /\
+  vordered (rvalue (run st1 p)) = vordered (rvalue (run st2 p)) /\
+  Forall2 (agree (vordered (rvalue (run st2 p))))
+          (vshards (rvalue (run st1 p))) (vshards (rvalue (run st2 p))).
+Proof. exact strategies_agree. Qed.
+Print Assumptions C04_strategies_agree.
+
+(* every strategy refines the reference semantics, node by node *)
+Theorem C04_run_refines_ref : forall (st : strategy) (p : list node),
+  wf_prog p = true -> wf_strategy st p = true ->
+  forall k, k < length p ->
+  agree_value (nth k (values_of_run st p) vempty) (nth k (values_of_ref p) vempty).
+Proof. exact run_refines_ref. Qed.
+Print Assumptions C04_run_refines_ref.
+
+Theorem C04_run_root_agrees : forall (st : strategy) (p : list node),
+  wf_prog p = true -> wf_strategy st p = true ->
+  vtypes (rvalue (run st p)) = vtypes (rvalue (ref p)) /\
+  vpre (rvalue (run st p)) = vpre (rvalue (ref p)) /\
+  vordered (rvalue (run st p)) = vordered (rvalue (ref p)) /\
+  Forall2 (agree (vordered (rvalue (ref p)))) (vshards (rvalue (run st p))) (vshards (rvalue (ref p))).
+Proof. exact run_root_agrees. Qed.
+Print Assumptions C04_run_root_agrees.
+
+(* Reduce: sorting a permutation gives the same list *)
+Theorem C04_reduce_shard_perm : forall (c : comb) (pre : nat) (l l' : list (list (list Z))),
+  Permutation l l' -> reduce_shard c pre l = reduce_shard c pre l'.
+Proof. exact reduce_shard_perm. Qed.
+Print Assumptions C04_reduce_shard_perm.
+
+(* Reduce: combining any part of the rows beforehand (producer-side, per
+   machine, in a spilled run) is harmless; rows only need their key columns *)
+Theorem C04_reduce_shard_absorb : forall (c : comb) (pre : nat) (l1 l2 : list (list (list Z))),
+  Forall (fun r => pre <= length r) l1 -> Forall (fun r => pre <= length r) l2 ->
+  reduce_shard c pre (reduce_shard c pre l1 ++ l2) = reduce_shard c pre (l1 ++ l2).
+Proof. exact reduce_shard_absorb. Qed.
+Print Assumptions C04_reduce_shard_absorb.
+
+(* Reduce: the operational Reduce (partitioning frame by frame; optionally the
+   task's combining buffer flushed every pflush rows into a combiner per task
+   or, with machine combiners, per machine over any grouping of the producers;
+   combiners spilling sorted runs every cspill rows; k-way merging reader over
+   the streams read in any order; or combining at the consumer only) = the
+   reference's Reduce, shard by shard *)
+Theorem C04_exec_reduce_strategy_irrelevant :
+  forall (st : strategy) (k : nat) (c : comb) (pre : nat) (f : list (list Z) -> nat) (n : nat)
+         (shards shards' : list (list (list (list Z)))),
+  1 <= chunk st -> 1 <= cspill st -> 1 <= pflush st ->
+  (if gcombine st k
+   then is_perm (concat (groups st k)) (length shards) && perms (gorder st k) (length (groups st k)) n
+   else perms (order st k) (length shards) n) = true ->
+  Forall2 (@Permutation _) shards shards' ->
+  Forall (Forall (fun r => pre <= length r)) shards' ->
+  exec_reduce st k c pre f n shards = map (reduce_shard c pre) (shuffle f n shards').
+Proof. exact exec_reduce_strategy_irrelevant. Qed.
+Print Assumptions C04_exec_reduce_strategy_irrelevant.
+
+(* the merging reader of sortio (k-way merge combining equal keys) over
+   combined, key-sorted streams = one reduction of all their rows *)
+Theorem C04_merge_reduce_reduce_shard : forall (c : comb) (pre : nat) (ss : list (list (list (list Z)))),
+  Forall (fun s => Forall (fun r : list (list Z) => pre <= length r) s) ss ->
+  merge_reduce c pre (map (reduce_shard c pre) ss) = reduce_shard c pre (concat ss).
+Proof. exact merge_reduce_reduce_shard. Qed.
+Print Assumptions C04_merge_reduce_reduce_shard.
+
+(* a combiner (hash-combine, spill sorted runs of any size, merge them) computes
+   the reduction of the rows it was given *)
+Theorem C04_combiner_out_reduce_shard : forall (spill : nat) (c : comb) (pre : nat) (rows : list (list (list Z))),
+  1 <= spill -> Forall (fun r : list (list Z) => pre <= length r) rows ->
+  combiner_out spill c pre rows = reduce_shard c pre rows.
+Proof. exact combiner_out_reduce_shard. Qed.
+Print Assumptions C04_combiner_out_reduce_shard.
+
+(* shuffles: consumer shard p is a permutation of the reference's shard p
+   whatever the order in which the producers are read, and equal to it when they
+   are read in index order *)
+Theorem C04_exec_shuffle_permutation :
+  forall (ch : nat) (ord : nat -> list nat) (f : list (list Z) -> nat) (n : nat)
+         (shards shards' : list (list (list (list Z)))),
+  1 <= ch -> perms ord (length shards) n = true ->
+  Forall2 (@Permutation _) shards shards' ->
+  Forall2 (@Permutation _) (exec_shuffle ch ord f n shards) (shuffle f n shards').
+Proof. exact exec_shuffle_permutation. Qed.
+Print Assumptions C04_exec_shuffle_permutation.
+
+Theorem C04_exec_shuffle_identity :
+  forall (ch : nat) (ord : nat -> list nat) (f : list (list Z) -> nat) (n : nat)
+         (shards : list (list (list (list Z)))),
+  1 <= ch -> (forall p, p < n -> ord p = seq 0 (length shards)) ->
+  exec_shuffle ch ord f n shards = shuffle f n shards.
+Proof. exact exec_shuffle_identity. Qed.
+Print Assumptions C04_exec_shuffle_identity.
+
+(* row-wise operators: the chunk (vector) size is irrelevant *)
+Theorem C04_exec_rowwise_chunking_irrelevant : forall ch : nat, 1 <= ch ->
+  (forall A B (f : A -> B) l, chunked ch (map f) l = map f l) /\
+  (forall A (f : A -> bool) l, chunked ch (filter f) l = filter f l) /\
+  (forall A B (f : A -> list B) l, chunked ch (flat_map f) l = flat_map f l) /\
+  (forall A n (l : list A), head_exec ch n l = firstn_z n l).
+Proof. exact exec_rowwise_chunking_irrelevant. Qed.
+Print Assumptions C04_exec_rowwise_chunking_irrelevant.
+
+Theorem C04_exec_fold_strategy_irrelevant :
+  forall (ch : nat) (ord : nat -> list nat) (f : list (list Z) -> nat) (n : nat)
+         (shards shards' : list (list (list (list Z)))),
+  1 <= ch -> perms ord (length shards) n = true ->
+  Forall2 (@Permutation _) shards shards' ->
+  Forall2 (@Permutation _) (map (fold_exec ch) (exec_shuffle ch ord f n shards))
+                           (map fold_shard (shuffle f n shards')).
+Proof. exact exec_fold_strategy_irrelevant. Qed.
+Print Assumptions C04_exec_fold_strategy_irrelevant.
+
+Theorem C04_exec_cogroup_strategy_irrelevant :
+  forall (st : strategy) (k pre n : nat) (ins ins' : list value),
+  1 <= chunk st -> Forall2 agree_value ins ins' ->
+  forallb (fun dv : nat * value => perms (corder st k (fst dv)) (nshards (snd dv)) n)
+          (combine (seq 0 (length ins')) ins') = true ->
+  exec_cogroup st k pre n ins
+  = map (fun p => cogroup_shard pre
+                    (map (fun s : nat * list (list (list (list Z))) => (fst s, nth p (snd s) []))
+                         (map (fun v => (length (vtypes v), shuffle (part (vtypes v) pre n) n (vshards v))) ins')))
+        (seq 0 n).
+Proof. exact exec_cogroup_strategy_irrelevant. Qed.
+Print Assumptions C04_exec_cogroup_strategy_irrelevant.
+
+(* the side-effect streams of the needed Scan / WriterFunc nodes do not depend
+   on the strategy either *)
+Theorem C04_run_sides_agree : forall (st : strategy) (p : list node),
+  wf_prog p = true -> wf_strategy st p = true ->
+  rordered (run st p) = rordered (ref p) /\
+  Forall2 (fun a b : side =>
+             snode a = snode b /\ sshard a = sshard b /\
+             agree (BS.C01.Corr.lookup_ordered (rordered (ref p)) (snode b)) (srows a) (srows b) /\
+             seofs a = seofs b /\ serrnil a = serrnil b /\ sruns a = sruns b)
+          (rsides (run st p)) (rsides (ref p)).
+Proof. exact run_sides_agree. Qed.
+Print Assumptions C04_run_sides_agree.
+
+(* every value of every node, not only the root *)
+Theorem C04_strategies_agree_everywhere : forall (st1 st2 : strategy) (p : list node),
+  wf_prog p = true -> wf_strategy st1 p = true -> wf_strategy st2 p = true ->
+  forall k, agree_value (nth k (values_of_run st1 p) vempty) (nth k (values_of_run st2 p) vempty).
+Proof. exact strategies_agree_everywhere. Qed.
+Print Assumptions C04_strategies_agree_everywhere.
+
+(* non-vacuity: a concrete program and three concrete well-formed strategies
+   whose intermediate values differ and whose roots agree *)
+Theorem C04_example_nonvacuous :
+  wf_prog ex_prog = true /\ wf_strategy ex_st_machines ex_prog = true /\
+  wf_strategy ex_st_local ex_prog = true /\ wf_strategy ex_st_precombine ex_prog = true.
+Proof. exact ex_wf. Qed.
+Print Assumptions C04_example_nonvacuous.
+Theorem C04_example_intermediate_differs :
+  vshards (nth 2 (values_of_run ex_st_machines ex_prog) vempty)
+  <> vshards (nth 2 (values_of_ref ex_prog) vempty).
+Proof. exact ex_intermediate_differs. Qed.
+Print Assumptions C04_example_intermediate_differs.
+
+Theorem C04_example_roots_agree :
+  vshards (rvalue (run ex_st_machines ex_prog)) = [ []; [ [[0]; [70]] ]; [ [[1]; [220]]; [[2]; [180]]; [[3]; [190]] ] ]%Z /\
+  vshards (rvalue (run ex_st_local ex_prog)) = vshards (rvalue (run ex_st_machines ex_prog)) /\
+  vshards (rvalue (run ex_st_precombine ex_prog)) = vshards (rvalue (run ex_st_machines ex_prog)) /\
+  vshards (rvalue (ref ex_prog)) = vshards (rvalue (run ex_st_machines ex_prog)).
+Proof. exact ex_roots_computed. Qed.
+Print Assumptions C04_example_roots_agree.
